@@ -398,6 +398,18 @@ def entries():
               "bss_eval_images_framewise", "evaluate"):
         E.append(Entry("separation.%s" % f, getattr(separation, f), sp, spf))
     # appended last so that entry indices in older replay files stay valid
+    # pattern: a mis-shaped (onset, midi) tuple at every (pattern, occurrence, note) position of either side
+    def tup(x, pi, oi, ni, t):
+        x = [[list(o) for o in pat] for pat in x]
+        x[pi][oi][ni] = t
+        return x
+    ppos = [(nm, i, (lambda x, pi=pi, oi=oi, ni=ni, t=t: tup(x, pi, oi, ni, t)))
+            for i in (0, 1) for pi in range(2) for oi in range(len(p[i]()[pi])) for ni in range(3)
+            for nm, t in (("3-tuple-onset@%d.%d.%d" % (pi, oi, ni), (0.25, 61.0, 1.0)),
+                          ("1-tuple-onset@%d.%d.%d" % (pi, oi, ni), (0.25,)))]
+    for f in ("validate", "standard_FPR", "establishment_FPR", "occurrence_FPR", "three_layer_FPR",
+              "first_n_three_layer_P", "first_n_target_proportion_R", "evaluate"):
+        E.append(Entry("pattern.%s[positions]" % f, getattr(pattern, f), p, ppos))
     # malformed estimated intervals lying strictly beyond the reference span (the span adjustment of evaluate()
     # must not make them disappear before validation); labels are padded so that only the interval is at fault
     E.append(Entry("segment.evaluate[beyond-span]",
